@@ -325,7 +325,7 @@ theorem freeze_is_transparent (st : St) : (freeze st).heap = st.heap ∧ (freeze
 theorem writes_tie :
     Generated.updateEdgeReceivers = ["cow|pp", "searched.p", "searched.pp", "searched.ppp"] ∧
     Generated.updateEdgeArgs = ["built", "cow|cp"] ∧
-    Generated.nodeFieldAssigns = ["built.key", "built.paramChildIndex", "built.wildcardChildIndex", "updateEdge-receiver.children[]"] ∧
+    Generated.nodeFieldAssignsNotBuilt = ["updateEdge-receiver.children[]"] ∧
     Generated.writableAdds = ["built", "clone"] ∧
     Generated.sliceMutations = ["made"] ∧
     Generated.writableResets = ["tXn.clone", "tXn.commit", "tXn.snapshot"] := by
